@@ -32,6 +32,10 @@ def failure_belongs(f, prop, uprops):
     tags = [t for t in f["tags"]]
     # a composed property (C01) is broken by a broken obligation of any property it is composed of, in the units it runs
     accept = [prop] + list((P.PROPS.get(prop) or {}).get("compose", []))
+    # an aggregate property (C06: panic-freedom rests on every contract of the functions it covers being true) is broken
+    # by any failed obligation inside a function tagged with it, whatever property the failed clause is named after
+    if (P.PROPS.get(prop) or {}).get("aggregate") and prop in (f.get("fn_tags") or []):
+        return True
     if tags:
         return any(t.startswith(a + ".") for t in tags for a in accept)
     if f["fn_tags"]:
